@@ -93,6 +93,26 @@ claim('C31',
       'TLA+ API state machine + TLC trace validation of recorded executions', '5.7, 6/C31')
 
 
+claim('C05',
+      'spec/lib/NdIndex.tla formalises NumPy basic+advanced indexing (ints, slices with None/negative parts, 1-D/2-D index arrays with '
+      'broadcasting, tuples, ellipsis, flat_src). TLC enumerates every index specification of a bounded grammar on all shapes of rank 1-3 '
+      '(extents <=3 quick, <=4 thorough), two-stage chains and all integer arrays of length <=4 for array2slice, checks the internal laws '
+      '(LenLaw, RangeLaw, FlatLaw, IdentityLaw, ApiLaw, InjectiveLaw, ComposeLaw, A2SLaw, SliceBackLaw) and exports positions and shapes; '
+      'every scenario is first compared with NumPy (oracle self-check) and then executed on openmdao.utils.indexer.',
+      'Bounded exhaustive plus seeded random; specs rejected by OpenMDAO or NumPy are counted, not compared; non-tuple 2-D arrays '
+      '(deprecated spelling) and dist_shape out of scope. Two known findings (see known_findings.json).',
+      'TLA+ formalisation of NumPy indexing + TLC scenario enumeration with laws + NumPy oracle self-check + replay into the Indexer classes',
+      '5.5, 6/C05')
+
+claim('C32',
+      'spec/mech/Order.tla: ValidOrder (producers first across strongly connected components, declared relative order inside one) and the '
+      'exact one-pass result; TLC checks Exists, OnePassSolves and BadOrderDetected for every digraph on 3 subsystems x every declared order '
+      '(4 subsystems: Exists; thorough). Every enumerated case is built flat and nested with auto_order=True; TLC (OrderJudge.tla) judges '
+      'the observed subsystem order and, for acyclic graphs, outputs equal the one-pass result with all residuals zero.',
+      'Scalar ExecComp subsystems with run-once solvers; 3 nodes exhaustive, 4 nodes sampled (thorough).',
+      'TLA+ graph specification + TLC exhaustive enumeration + TLC judging observed orders', '5.8, 6/C32')
+
+
 def main():
     checks = []
     for pid in ALL:
